@@ -75,6 +75,13 @@ out.append("|---|---|---|---|---|")
 for name, prop, needs, caught in rows:
     out.append(f"| {name} | {prop} | {needs} | {caught} | {STRENGTH.get(name, '')} |")
 out.append("")
+tf = os.path.join(HERE, "seeded", "TARGETS.quick.txt")
+if os.path.exists(tf):
+    tl = [l for l in open(tf).read().splitlines() if l.strip()]
+    nc = sum(1 for l in tl if "caught by" in l)
+    out.append(f"\nWith the final harness, `tools/targets_run.sh quick` ran the check of the property each change was written against "
+               f"on a scratch copy with the patch applied: {nc} of {len(tl)} changes are caught (`seeded/TARGETS.quick.txt`)."
+               + ("" if nc == len(tl) else " Missed: " + ", ".join(l.split(":")[0] for l in tl if "caught by" not in l) + ".") + "\n")
 bf = os.path.join(HERE, "seeded", "benign", "RESULT.quick.txt")
 out.append("**Benign changes** (must stay silent; `seeded/benign/N.diff`, written by a sub-agent asked for behaviour-preserving\n"
            "maintenance: a parser refactoring, reworded error messages, a different Bad-node skipping heuristic, a lexer fast\n"
